@@ -4,3 +4,4 @@ pub mod sync;
 pub mod time;
 pub mod timer;
 pub mod obs;
+pub mod local;
